@@ -353,7 +353,10 @@ map_linux_arm(struct os_init_data *ctl)
 		status = set_linux_direct(ctl, page_base.addr);
 		if (status != ADDRXLAT_OK)
 			clear_error(ctl->ctx);
-	}
+	} else
+		/* _stext was needed only for the mappings above;
+		 * forget the failed lookup. */
+		clear_error(ctl->ctx);
 
 	return ADDRXLAT_OK;
 }
